@@ -189,7 +189,7 @@ func (w *world) serve(host string, conn *vnet.VConn) {
 					moves = append(moves, "hold-until-next")
 				}
 				if w.sc.dup {
-					moves = append(moves, "answer-twice")
+					moves = append(moves, "answer-twice", "answer-four-times")
 				}
 				if w.sc.unknownID {
 					moves = append(moves, "unknown-id-first")
@@ -216,6 +216,12 @@ func (w *world) serve(host string, conn *vnet.VConn) {
 					held = append(held, pd)
 					continue
 				case "answer-twice":
+					answer(pd)
+					answer(pd)
+				case "answer-four-times":
+					// more copies than the caller's reply slot and the caller together can absorb
+					answer(pd)
+					answer(pd)
 					answer(pd)
 					answer(pd)
 				case "unknown-id-first":
